@@ -94,6 +94,7 @@ def swarm_knobs(rng):
         "top_min": 1,
         "top_max": rng.choice([3, 6, 10, 16]),
         "call_depth": rng.choice([1, 2, 3, 5]),
+        "aio_p": rng.choice([0, 0, 0.1, 0.25]),
     }
     return kn
 
@@ -268,6 +269,7 @@ def run_world(plan, lp, sample_rate=None, rng_seam=None):
     assert sys.getprofile() is old or True
     J = list(rt.J)
     D.finish_handles()
+    run_world.last_aio = list(mat.aio_stats)
     return J, logger, residue, admitted
 
 
@@ -324,6 +326,7 @@ def execute(plan):
     V, evaluated, info, calls, comps, matched = TT.check(lp, J, logger.logs, plan["k"], get_type, prefix="C02", admitted=admitted)
     V.extend(residue_violations("C02", lp, residue, calls, comps))
     probes = {}
+    mat_stats = getattr(run_world, "last_aio", [])
     if any(c.at_yield for c in comps):
         probes["generator ended by exception at a yield"] = 1
     if any(lp.funcs[c.fid]["body"] == "coro" and c.awaits for c in comps):
@@ -332,6 +335,10 @@ def execute(plan):
         probes["call ended by exception"] = 1
     if any(c.rebinds for c in comps):
         probes["parameter rebound inside a generator"] = 1
+    if any(rec[0] == "XH" and rec[2] == "CancelledError" for rec in J):
+        probes["asyncio task cancelled at an await"] = 1
+    if mat_stats:
+        probes["coroutines run as tasks on the simulated asyncio loop"] = 1
     if any(lp.funcs[c.fid]["kind"] == "inner" for c in comps):
         probes["nested function resolved through caller locals"] = 1
     if any(lp.funcs[c.fid].get("super") for c in comps):
@@ -348,5 +355,7 @@ def execute(plan):
         "evaluated": evaluated,
         "probes": probes,
         "faults": {"log_raises": logger.fired} if logger.fired else {},
-        "stats": {"completed_calls": info["completed"], "logged_traces": info["logged"], "matched": info["matched"]},
+        "stats": {"completed_calls": info["completed"], "logged_traces": info["logged"], "matched": info["matched"],
+                  "aio_loop_steps": sum(x["steps"] for x in mat_stats), "aio_ready_queue_permutations": sum(x["permutations"] for x in mat_stats)},
+        "sim_days": sum(x["vtime"] for x in mat_stats) / 86400.0,
     }
